@@ -1,29 +1,8 @@
 (** C20 lemmas, part d: the pre-order walk of the repaired model computes [xi_spec] (tree, base URIs, errors). *)
 From Coq Require Import NArith List Bool Lia Arith.
 Import ListNotations.
-From XV Require Import C20.Spec20 C20.Model20 C20.Proofs20a C20.Proofs20c.
+From XV Require Import C20.Spec20 C20.Model20 C20.Hyps20 C20.Proofs20a C20.Proofs20c.
 Local Open Scope N_scope.
-
-(** ---- hypotheses on the input (decidable; the generator of the correspondence satisfies them) ----------- *)
-(** a reference (href or xml:base value) is clean: not empty, not starting with '/', last segment not ".." *)
-Definition clean_ref (v : str) : bool :=
-  match v with c :: _ => negb (c =? SLASH) | [] => false end && negb (is_dd (last (split_slash v) [])).
-Definition clean_attrs (at_ : list attr) : bool :=
-  match get_base_attr at_ with Some v => clean_ref v | None => true end &&
-  match get_attr NS_NONE s_href at_ with Some v => clean_ref v | None => true end.
-(** every element has clean references; xi:fallback carries no xml:base *)
-Fixpoint clean_node (n : node) : bool :=
-  match n with
-  | Elem ns nm at_ kids =>
-    clean_attrs at_ &&
-    (if is_fallback ns nm then match get_base_attr at_ with None => true | Some _ => false end else true) &&
-    forallb clean_node kids
-  | _ => true
-  end.
-(** a document has at most one top-level element (it is well-formed) *)
-Definition clean_doc (top : list node) : bool := forallb clean_node top && Nat.leb (count_elem_nodes top) 1.
-Definition clean_file (pf : path * file) : bool := match snd pf with FDoc top => clean_doc top | _ => true end.
-Definition clean_fs (fs : fsys) : bool := forallb clean_file fs.
 
 Lemma clean_ref_okp : forall v, clean_ref v = true -> okp (split_slash v) /\ exists c v', v = c :: v'.
 Proof.
